@@ -8,7 +8,8 @@ GATES = {
     'quick': {'evaluations': 30000, 'getter_checks': 25000, 'setter_checks': 3000, 'chained_setter_checks': 3000, 'setter_nonempty_readback': 1500,
               'model_next_to_zero_width': 2000, 'classes_checked': 25, 'setter_crlf': 150,
               'runs_split_by_zero_width_token': 100, 'post_write_neighbour_sweeps': 150,
-              'line_end_only_chain_steps': 500, 'entry_gap_checks': 1000, 'entry_gaps_with_blank_only_lines': 80, 'post_write_sweeps_after_filling_an_empty_gap': 50},
+              'line_end_only_chain_steps': 500, 'entry_gap_checks': 1000, 'entry_gaps_with_blank_only_lines': 80, 'post_write_sweeps_after_filling_an_empty_gap': 50,
+              'getter_checks_after_emptied_indent': 2000, 'setter_checks_after_emptied_indent': 100},
     'thorough': {'evaluations': 800000, 'classes_checked': 30},
 }
 SPACINGS = ['', ' ', '\n', '\r\n', '  \t', '\n\n', ' \n\t \n', '\t', '    ', '\r\n\r\n', ' \r\n ', '\n ']
@@ -21,6 +22,7 @@ RULE = ('case = one accepted generated document (both attribution modes; stores 
         'of 12 spacing strings the printed text == text with exactly that run replaced, and a non-empty string reads back. '
         'After a setter that replaces pure line ends by pure line ends (no blanks on either side; the printed text lexes into the same non-empty tokens the edited store holds), all models of the edited tree must read the same spacing as the models of a fresh parse of the printed text (neighbour agreement after the write). Non-trivial = the run is non-empty or the assigned string is; distinct = hash(text, path, side, string).')
 RULE += (' Also (rounds 7-10): line-end-only assignment chains on one tree with sweeps against a fresh parse also where the gap had been empty; a text-level oracle for the gap between neighbouring entries of a file (where the text between them is blanks and line ends only, both read exactly that text).')
+RULE += (" Also (round 13): on a fifth of the documents one Indent of a fresh tree is set to '' (a token an edit made zero-width): every accessor must still read the run adjacent in the text, and one write right after the emptied token must replace exactly that run.")
 ASSUMPTIONS = ['spacing strings are drawn from [ \\t]+ and \\r?\\n groups, the domain the statement names']
 
 
@@ -119,6 +121,53 @@ def run_case(col, r, idx):
                 col.violation('entry-gap', f'between entry {type(e1).__name__} and entry {type(e2).__name__} the text is {gap!r}; '
                               f'spacing_after reads {got1!r}, spacing_before reads {got2!r}', {'text': text, 'acl': acl})
                 return
+        # a token that an edit made zero-width (round 13): an Indent whose value is set to '' stays in the store with no text. The
+        # run adjacent to a model is a matter of the text, so every accessor must read through it as through the zero-width marks,
+        # and a write next to it must replace the one run that is there. (Fresh tree; one Indent emptied; sweep, then one write.)
+        if idx % 5 == 2:
+            f3 = P.parse(text, models.File, auto_claim_comments=acl)
+            inds = [t for t in f3.token_store if isinstance(t, models.Indent) and t.raw_text]
+            if inds:
+                ind = r.choice(inds)
+                ind.value = ''
+                col.count('emptied_indent_cases')
+                lab3, pos3, full3 = labels(f3.token_store)
+                ms3 = targets(f3)
+                near = []
+                for path, m in ms3:
+                    i, a, b, j = runs(lab3, pos3, m)
+                    if m.first_token is ind or f3.token_store.get_prev(m.first_token) is ind:
+                        near.append((path, m))
+                    for side, exp in (('before', full3[i:a]), ('after', full3[b:j])):
+                        got = getattr(m, 'spacing_' + side)
+                        col.ev()
+                        col.count('getter_checks_after_emptied_indent')
+                        if got != exp:
+                            col.violation(f'getter-next-to-emptied-token:{side}', f'{type(m).__name__} at {path}: after one Indent was set to \'\' '
+                                          f'spacing_{side} == {got!r} but the adjacent run in the text is {exp!r}',
+                                          {'text': text, 'path': path, 'acl': acl, 'text_after_the_edit': full3})
+                            return
+                if near:
+                    path, m = r.choice(near)
+                    s3 = r.choice(SPACINGS)
+                    i, a, b, j = runs(lab3, pos3, m)
+                    exp = full3[:i] + s3 + full3[a:]
+                    wit = {'text': text, 'path': path, 'assigned': s3, 'acl': acl, 'text_after_emptying_the_indent': full3}
+                    try:
+                        m.spacing_before = s3
+                    except Exception as e:
+                        col.violation('setter-raised-next-to-emptied-token', f'{type(e).__name__}: {e}', wit)
+                        return
+                    col.ev()
+                    col.count('setter_checks_after_emptied_indent')
+                    got = common.pr(f3)
+                    if got != exp:
+                        col.violation('setter-next-to-emptied-token', f'{type(m).__name__}.spacing_before = {s3!r} right after an emptied Indent: '
+                                      f'printed text is not the text with that run replaced', dict(wit, got=got, expected=exp))
+                        return
+                    if s3 and m.spacing_before != s3:
+                        col.violation('setter-readback-next-to-emptied-token', f'assigned {s3!r}, reads back {m.spacing_before!r}', wit)
+                        return
         if not ms:
             return
         # half of the documents take all their assignments one after the other on the same tree (runs collapse, blocks of the store
